@@ -52,6 +52,7 @@ func genFaulty(r *simrt.RNG, tier string, variant int, prop string) Plan {
 	cp := ClientPlan{Name: "A", Kind: "ws", Server: 0}
 	cp.NoReconnect = r.Bool(0.2)
 	cp.Errors = r.Bool(0.5)
+	cp.Merged = r.Bool(0.25)
 	// Keepalive settings must satisfy the documented constraint on both sides:
 	// every ping interval in play (the client's own and the server's, whose pings
 	// are what keeps the client's read deadline alive) is below timeout/2.
